@@ -215,6 +215,20 @@ def tlc(module, cfg, specdir, env=None, workers="auto", timeout=1200, extra=None
     return TlcResult(rc, out, wall)
 
 
+def negative_control(rep, module, cfg, specdir, what):
+    """negative control OF THE MODEL (never of the implementation): a deliberately broken configuration must violate an invariant,
+    otherwise the invariants would be vacuous. One worker (the first reported invariant must not depend on thread timing), one retry,
+    and the outcome is only recorded in the evidence - it can never make a check fail on its own."""
+    r = None
+    for attempt in range(2):
+        r = tlc(module, cfg, specdir, workers=1, timeout=900, tag="%s_neg%d" % (os.path.splitext(cfg)[0], attempt))
+        if r.invariant_violated:
+            break
+    rep.coverage.setdefault("negative_controls", []).append(
+        {"what": what, "cfg": cfg, "violated": r.invariant_violated or "", "note": "" if r.invariant_violated else r.out[-300:]})
+    return r
+
+
 def tlc_must_pass(module, cfg, specdir, **kw):
     r = tlc(module, cfg, specdir, **kw)
     if r.rc == 124:
